@@ -961,6 +961,15 @@ static ASMJIT_INLINE void rw_zero_extend_gp(OpRWInfo& op_rw_info, const Gp& reg,
     op_rw_info.add_op_flags(OpRWFlags::kZExt);
     op_rw_info.set_extend_byte_mask(~op_rw_info.write_byte_mask() & 0xFFu);
   }
+  else if (reg.size() == native_gp_size) {
+    // There are no partial writes of a native size register - a payload that is narrower than the register (MOVMSKPS,
+    // KMOVB|W r32, k, ...) is zero extended to the register size.
+    uint64_t msk = ~op_rw_info.write_byte_mask() & Support::lsb_mask<uint64_t>(reg.size());
+    if (msk) {
+      op_rw_info.add_op_flags(OpRWFlags::kZExt);
+      op_rw_info.set_extend_byte_mask(msk);
+    }
+  }
 }
 
 static ASMJIT_INLINE void rw_zero_extend_avx_vec(OpRWInfo& op_rw_info, const Vec& reg) noexcept {
